@@ -48,7 +48,9 @@ func ownerOf(text string) int {
 	switch {
 	case strings.HasPrefix(text, "ini"), strings.HasPrefix(text, "cal"), strings.HasPrefix(text, "idl"), strings.HasPrefix(text, "ctl"):
 		return -1
-	case strings.HasPrefix(text, "sh"):
+	case strings.HasPrefix(text, "sh"), strings.TrimSpace(text) == "":
+		// texts without an identity (shared by goroutines; empty, blank, line breaks
+		// only): told apart by call site and counted
 		return -2
 	case strings.HasPrefix(text, "g"):
 		i := 1
@@ -614,6 +616,21 @@ func judge(w *world, b *vlib.Batch) {
 		}
 	}
 	subSeen := map[string]int{}
+	subUsed := map[int]bool{}
+	carried := func(e adEntry) []string {
+		// "<colour><duration> <file>:<line> > <SEVE><colour end>     <message>"
+		var out []string
+		for _, ln := range e.Fmt[1:] {
+			if j := strings.Index(ln, "\x1b[0m     "); j >= 0 {
+				out = append(out, ln[j+9:])
+			} else if f := strings.Fields(ln); len(f) > 0 {
+				out = append(out, f[len(f)-1])
+			} else {
+				out = append(out, "")
+			}
+		}
+		return out
+	}
 	var subChecked, subLines, subHelpers int
 	for _, g := range gs {
 		for i, r := range g.recs {
@@ -625,21 +642,43 @@ func judge(w *world, b *vlib.Batch) {
 			if dirtyOwner[g.id] && stats[g.keys[i]].must+stats[g.keys[i]].may > 1 {
 				continue // which arrival is which is not known when some are missing
 			}
-			if nth >= len(entByKey[g.keys[i]]) {
-				continue // not delivered: decided by the count check
-			}
-			e := entries[entByKey[g.keys[i]][nth]]
-			subChecked++
-			var gotLines []string
-			for _, ln := range e.Fmt[1:] {
-				f := strings.Fields(ln)
-				if len(f) == 0 {
-					gotLines = append(gotLines, "")
+			want := r.Trace[:len(r.Trace)-1]
+			var e adEntry
+			if stats[g.keys[i]].owner == -2 {
+				// main line without identity (empty / blank text): several goroutines
+				// submit under the same key; the submission is recognised by the
+				// (unique) lines it collected
+				if dirtyOwner[-2] {
 					continue
 				}
-				gotLines = append(gotLines, f[len(f)-1])
+				var wl []string
+				for _, t := range want {
+					wl = append(wl, t.Text)
+				}
+				found := -1
+				for _, ei := range entByKey[g.keys[i]] {
+					if !subUsed[ei] && strings.Join(carried(entries[ei]), "\n") == strings.Join(wl, "\n") {
+						found = ei
+						break
+					}
+				}
+				if found < 0 {
+					if r.Ret != 0 && r.Ret < w.shutCall {
+						viol("tracer-lines:missing", fmt.Sprintf("a submission with main text %q from %s arrived the right number of times, but none of the arrivals carries the lines %q this tracer collected", r.Text, siteName(r.Site), wl),
+							witness{"submission": r, "goroutine": g.id})
+					}
+					continue
+				}
+				subUsed[found] = true
+				e = entries[found]
+			} else {
+				if nth >= len(entByKey[g.keys[i]]) {
+					continue // not delivered: decided by the count check
+				}
+				e = entries[entByKey[g.keys[i]][nth]]
 			}
-			want := r.Trace[:len(r.Trace)-1]
+			subChecked++
+			gotLines := carried(e)
 			subLines += len(r.Trace)
 			det := witness{"submission": r, "entry": e, "goroutine": g.id}
 			// the main line
@@ -758,6 +797,8 @@ func judge(w *world, b *vlib.Batch) {
 	b.Count("entries_after_shutdown_returned", int64(afterRet))
 	b.Count("level_flip_actions", w.flipActions.Load())
 	b.Count("twin_blocks", w.twinBlocks.Load())
+	b.Count("odd_text_lines", w.oddLines.Load())
+	b.Count("odd_text_submissions", w.oddSubmissions.Load())
 	b.Count("submissions_after_plain_lines_of_same_goroutine", w.submitsAfterPlain.Load())
 	b.Count("global_level_changes_with_pkg_levels_untouched", int64(w.globalOnlyChanges))
 	b.Count("idle_points_judged", int64(len(w.idlePoints)))
